@@ -28,6 +28,7 @@ type c17Call struct {
 	c, r     time.Time
 	err      error
 	phase    int
+	skip     time.Duration // SkipInterval in force when the call was made
 }
 
 func init() {
@@ -147,7 +148,7 @@ func c17Case(b *Batch, idx int) {
 	doCall := func(phase int) {
 		cmu.Lock()
 		nextID++
-		c := &c17Call{id: nextID, phase: phase}
+		c := &c17Call{id: nextID, phase: phase, skip: effSkip}
 		calls = append(calls, c)
 		cmu.Unlock()
 		ctx := context.WithValue(bg, c17CallID{}, c.id)
@@ -175,19 +176,35 @@ func c17Case(b *Batch, idx int) {
 		doCall(-1)
 		doCall(-1)
 	}
+	reconfigure := !chain && (skipName == "1ms" || skipName == "20ms") && rng.Intn(4) == 0
 	for p := 0; p < nPhases; p++ {
+		if p > 0 && reconfigure && rng.Intn(2) == 0 {
+			// the exported SkipInterval is changed between two (sequential) phases: later calls are judged by the new value
+			inv.Lock()
+			if rng.Intn(2) == 0 {
+				inv.SkipInterval = time.Hour
+			} else {
+				inv.SkipInterval = 3 * time.Millisecond
+			}
+			effSkip = inv.SkipInterval
+			inv.Unlock()
+			pattern += fmt.Sprintf("/skip:=%v", effSkip)
+			b.R.Count("reconfigured.phases", 1)
+		}
 		if p > 0 {
 			switch rng.Intn(3) {
 			case 0:
 				pattern += "/0"
 			case 1:
-				if effSkip > 0 {
+				if effSkip > 0 && effSkip < time.Second {
 					time.Sleep(effSkip / 2)
 				}
 				pattern += "/half"
 			default:
-				if effSkip > 0 {
+				if effSkip > 0 && effSkip < time.Second {
 					time.Sleep(effSkip + effSkip*3/10)
+				} else if effSkip >= time.Second {
+					time.Sleep(25 * time.Millisecond) // far below the new interval
 				}
 				pattern += "/full"
 			}
@@ -320,11 +337,11 @@ func c17Case(b *Batch, idx int) {
 				}
 			}
 		}
-		if d := eb[0].at.Sub(lb); d < effSkip {
-			fail("spacing", fmt.Sprintf("accepted calls %d and %d only %v apart (< SkipInterval %v)", A.id, B.id, d, effSkip))
+		if d := eb[0].at.Sub(lb); d < B.skip {
+			fail("spacing", fmt.Sprintf("accepted calls %d and %d only %v apart (< SkipInterval %v in force at the later call)", A.id, B.id, d, B.skip))
 		}
 	}
-	if effSkip < 0 && len(accepted) != len(calls) {
+	if skip < 0 && len(accepted) != len(calls) {
 		fail("negative-interval-rejected", "negative SkipInterval must accept every call")
 	}
 	// must-accept: B has to be accepted if every call that began before B returned had returned >= Skip before B began
@@ -334,7 +351,7 @@ func c17Case(b *Batch, idx int) {
 			if X == B || !X.c.Before(B.r) {
 				continue
 			}
-			if X.r.IsZero() || B.c.Sub(X.r) < effSkip {
+			if X.r.IsZero() || B.c.Sub(X.r) < B.skip {
 				must = false
 				break
 			}
